@@ -10,7 +10,7 @@ RULE = ("per group every multiset of (label, score-level) rows with both labels 
         "training rows, recomputed by loops, equal across groups within 1e-9 and probabilities finite in [0,1]; non-trivial = "
         "always (every case has >= 2 groups with both labels); distinct = distinct group tuples")
 ASSUMPTIONS = ["score values come from a 3(4)-level palette selected by VERIF_SEED; group sizes above the bound are not explored"]
-CLASSES = ["score_ties", "all_scores_equal_in_group", "grid_size_1", "three_or_more_groups", "near_tie_scores"]
+CLASSES = ["score_ties", "all_scores_equal_in_group", "grid_size_1", "three_or_more_groups", "near_tie_scores", "explicit_predict_method"]
 # classes whose occurrence depends on implementation internals (reported, warned about when absent, never a hard vacuity error)
 SOFT_CLASSES = ["p_ignore_positive", "flip_used", "randomised_between_thresholds"]
 
